@@ -333,7 +333,25 @@ def c19(run):
     run.assumptions += ["the Go scheduler is not controllable: schedule coverage is stress sampling (N x GOMAXPROCS x seeded jitter), not enumeration",
                         "'no data race' is the Go race detector's verdict on the same driver built with -race",
                         "non-interference = each concurrent session's ordered observations equal those of the same session run alone (random mask keys and nonces are not part of the observations)"]
-    records_check(run, b, "c19", "C19Records")
+    # schedule-dependent: a rejected session record is itself behaviour of the real code; it is judged
+    # again on its own and the whole driver is re-run a few times to see whether interference recurs
+    d0, meta0 = run.drive(b, "c19")
+    run.absorb(meta0)
+    n0, bad0 = vlib.tlc_records(run, "C19Records", meta0["files"]["records"])
+    run.extra["records_judged_by_tlc"] = n0
+    for f, idx, key in bad0[:3]:
+        def recheck(f=f, idx=idx, key=key):
+            line = open(f).read().splitlines()[idx - 1]
+            p1 = os.path.join(run.work, "c19-recheck-%d.ndjson" % idx)
+            open(p1, "w").write(line + "\n")
+            n1, bad1 = vlib.tlc_records(run, "C19Records", [p1])
+            again = 0
+            for attempt in range(3):
+                d2, m2 = run.drive(b, "c19", sub="c19-rerun-%d-%d" % (idx, attempt))
+                if vlib.tlc_records(run, "C19Records", m2["files"]["records"])[1]:
+                    again += 1
+            return bool(bad1), dict(record=json.loads(line), interference_in_reruns="%d/3" % again)
+        run.candidate(key, "a concurrently run session observed something else than the same session alone", recheck)
     # the same driver under the race detector
     rb = run.build(race=True, name="wsverif-race")
     logp = os.path.join(run.work, "race")
